@@ -455,6 +455,10 @@ impl Node {
         call!([cx], |this, cx| this.meth(cx, tok));
     }
 
+    fn call_self_closure_prep(cx: CX![], tok: Tok) {
+        call!([cx], |this, cx| this.meth(cx, tok));
+    }
+
     // Target of ret_to!
     fn retm(&mut self, cx: CX![], rid: i64, _at: ArgTok, v: Option<i64>) {
         ev(format!(
@@ -1087,6 +1091,11 @@ fn exec_op(op: &Value, ctx: &mut Ctx) {
                     n.call_self_closure(cx, tok);
                     return;
                 }
+                (Ctx::P(a, cx), false) if *a == aid && id % 3 == 2 => {
+                    // a Ready-style call an actor makes to itself from its own init, closure form: held until Ready
+                    Node::call_self_closure_prep(cx, tok);
+                    return;
+                }
                 (Ctx::P(a, cx), true) if *a == aid && id % 2 == 1 => {
                     call!([cx], Node::init(aid, tok));
                     return;
@@ -1206,6 +1215,32 @@ fn exec_op(op: &Value, ctx: &mut Ctx) {
                 let r = core.shutdown_reason();
                 ev(format!(r#"{{"e":"shutreason","notshut":{},"has":{}}}"#, ns, r.is_some()));
             }
+        }
+        "unwinddrop" => {
+            // handles owned by a frame that panics (outside run(); caught by the caller): they are
+            // dropped by the unwind and must behave exactly as if they had been dropped normally
+            let mut owns = Vec::new();
+            let mut rets = Vec::new();
+            if let Some(a) = op.get("oids").and_then(|v| v.as_array()) {
+                for o in a {
+                    if let Some(h) = w(|w| w.owns.remove(&o.as_i64().unwrap())) {
+                        owns.push(h);
+                    }
+                }
+            }
+            if let Some(a) = op.get("rids").and_then(|v| v.as_array()) {
+                for r in a {
+                    if let Some(h) = w(|w| w.rets.remove(&r.as_i64().unwrap())) {
+                        rets.push(h);
+                    }
+                }
+            }
+            let r = catch_unwind(AssertUnwindSafe(move || {
+                let _owned = (rets, owns);
+                std::panic::panic_any(Boom);
+            }));
+            let _ = PANIC_MSG.with(|p| p.borrow_mut().take());
+            drop(r);
         }
         "park" => {
             let oid = get_i(op, "oid");
@@ -1627,10 +1662,22 @@ fn exec_op(op: &Value, ctx: &mut Ctx) {
 
 #[cfg(feature = "logger")]
 fn mk_filter(levels: &Value) -> LogFilter {
+    let names: Vec<&str> = levels.as_array().unwrap().iter().map(|l| l.as_str().unwrap()).collect();
     let mut f = LogFilter::new();
-    for l in levels.as_array().unwrap() {
-        let lvl: LogLevel = l.as_str().unwrap().parse().unwrap();
+    for l in &names {
+        let lvl: LogLevel = l.parse().unwrap();
         f |= LogFilter::from(lvl);
+    }
+    // the same filter written the way a configuration file would have it ("warn, open", padded)
+    if !names.is_empty() && names.iter().all(|n| *n != "off") {
+        let text = format!(" {} ", names.join(" , "));
+        let ok = match text.parse::<LogFilter>() {
+            Ok(parsed) => parsed == f,
+            Err(_) => false,
+        };
+        if !ok {
+            ev(r#"{"e":"filterparse","ok":false}"#.to_string());
+        }
     }
     f
 }
